@@ -245,6 +245,12 @@ func (w *vW) hooks() {
 			}
 		} else if verifrt.Appended() {
 			verifrt.Assume(p == 0 || (p >= 7000 && p < mx))
+			if verifrt.Param("preentries", 0) == 1 {
+				// harnesses that issue several requests: an entry that still has its pre-state value is
+				// an entry of the pre-state, whose representative range excludes the fresh blocks
+				pre := vLe64(w.d.Init(b.Addr.Blkno), off)
+				verifrt.Assume(p != pre || p == 0 || p >= 7500)
+			}
 		} else {
 			// representative range for indirect entries: disjoint from inode slots (2048..6143) and from
 			// fresh allocations (7000..); entries are symbolic within it
